@@ -183,8 +183,11 @@ def main():
         uniq.setdefault(f.key(), f)
     viol = []
     known_hit = []
+    undecided = []
     for k, f in sorted(uniq.items()):
-        if (pid, k) in known:
+        if getattr(f, "undecided", False):
+            undecided.append(f)
+        elif (pid, k) in known:
             known_hit.append(f)
         else:
             viol.append(f)
@@ -218,6 +221,7 @@ def main():
         "known_findings_applied": [f.key() for f in known_hit],
         "fixed_entries": [x for x in fixed if ("property=%s " % pid) in x],
         "violation_keys": [f.key() for f in viol],
+        "undecided": [f.key() for f in undecided],
         "notes": res.notes + ([getattr(ctx, "degraded")] if getattr(ctx, "degraded", None) else []),
     }
     ev = {
@@ -233,10 +237,12 @@ def main():
     tmp = ev_path + ".tmp%d" % os.getpid()
     json.dump(ev, open(tmp, "w"), indent=1)
     os.replace(tmp, ev_path)
-    print("[%s] tier=%s rules=%s obligations=%d discharged=%d violations=%d wall=%.1fs" % (
-        pid, tier, ",".join(sorted(res.rules)), total_ob, discharged, len(viol), wall))
+    print("[%s] tier=%s rules=%s obligations=%d discharged=%d violations=%d%s wall=%.1fs" % (
+        pid, tier, ",".join(sorted(res.rules)), total_ob, discharged, len(viol), (" undecided=%d" % len(undecided)) if undecided else "", wall))
     for f in known_hit:
         print("KNOWN-FINDING: property=%s %s" % (pid, f.key()))
+    for f in undecided:
+        print("UNDECIDED property=%s %s  @ %s" % (pid, f.key(), f.at))
     for f, rp in replay_files:
         print("  %s  @ %s %s" % (f.key(), f.at, f.detail))
         print("VIOLATION property=%s replay=%s" % (pid, rp))
